@@ -1063,10 +1063,37 @@ func TestVerifBearer(t *testing.T) {
 			}
 		}
 	}
+	// a session case: its own bubble (goroutines, virtual clock), several records
+	session := func(prefix string) func(*bsCase) {
+		return func(sc *bsCase) {
+			flush()
+			id := fmt.Sprintf("%s%d", prefix, n)
+			n++
+			synctest.Test(t, func(t *testing.T) {
+				bsRun(sc, func(op, obs string, tags ...string) { out.line(id, op, obs, tags...) })
+			})
+		}
+	}
 	replay := func(path, cs string) {
 		b, err := os.ReadFile(path)
 		if err != nil {
 			t.Fatal(err)
+		}
+		if strings.Contains("\n"+string(b), "\nmw ") {
+			// a session: one middleware value, applications and requests (zz_verif_bearer_sess_test.go)
+			var lines []string
+			for _, ln := range strings.Split(string(b), "\n") {
+				if ln = strings.TrimSpace(ln); ln != "" && !strings.HasPrefix(ln, "#") {
+					lines = append(lines, ln)
+				}
+			}
+			sc, ok := bsParse(lines)
+			if !ok {
+				out.line(cs, strings.Join(lines, " | "), "bad-op", "corpus")
+				return
+			}
+			session(cs)(sc)
+			return
 		}
 		for _, ln := range strings.Split(string(b), "\n") {
 			ln = strings.TrimSpace(ln)
@@ -1098,8 +1125,13 @@ func TestVerifBearer(t *testing.T) {
 	if os.Getenv("VERIF_CASES") == "" {
 		brEnumerate(emit("e"))
 		flush()
+		bsEnumerate(session("se"))
 	}
-	nr := verifN(4000, 400000)
+	srng := verifRng(1414)
+	for i, ns := 0, verifN(700, 30000); i < ns; i++ {
+		session("sr")(bsRandom(srng))
+	}
+	nr := verifN(4000, 300000)
 	rng := verifRng(14)
 	for i := 0; i < nr; i++ {
 		c := brRandom(rng)
